@@ -83,7 +83,13 @@ class Gen:
     def stmt(self, env, ind, depth, in_loop, kind=None):
         r = self.r
         p = "  " * ind
-        kind = kind or r.choice(["assign", "assign", "assign", "decl", "decl", "if", "for", "while", "do", "ret", "brk"])
+        kind = kind or r.choice(["assign", "assign", "assign", "decl", "decl", "if", "for", "while", "do", "ret", "brk",
+                                 "vzoo", "vzoo"])
+        if kind == "vzoo":
+            z = self.vzoo(env, p)
+            if z:
+                return z
+            kind = "decl"
         if kind == "assign":
             lv = self.lvalues(env)
             if not lv:
@@ -155,6 +161,59 @@ class Gen:
             return p + f"if ({self.cond(env)}) {{\n{p}  {r.choice(['break', 'continue'])};\n{p}}}\n"
         return self.stmt(env, ind, depth, in_loop, "assign" if self.lvalues(env) else "decl")
 
+    def vzoo(self, env, p):
+        """Vector / matrix / swizzle / cast statements (shuffles, vector and matrix
+        arithmetic, implicit conversions)."""
+        r = self.r
+        fv = [(n, int(t[-1])) for n, t in env.items() if t in ("float2", "float3", "float4")]
+        iv = [(n, int(t[-1])) for n, t in env.items() if t in ("int2", "int3", "int4")]
+        mats = [n for n, t in env.items() if t == "float4x4"]
+        k = r.randrange(9)
+        nm = self.fresh("z")
+        comps = "xyzw"
+        if k == 0 and fv:
+            n, sz = r.choice(fv)
+            m = r.randint(2, sz)
+            sw = "".join(r.choice(comps[:sz]) for _ in range(m))
+            env[nm] = f"float{m}"
+            return p + f"float{m} {nm} = {n}.{sw};\n"
+        if k == 1 and fv:
+            n, sz = r.choice(fv)
+            if n in self.readonly or sz < 2:
+                return None
+            a, b = r.sample(range(sz), 2)
+            return p + f"{n}.{comps[a]}{comps[b]} = float2({self.expr('float', env, 1)}, {self.expr('float', env, 1)});\n"
+        if k == 2 and len([x for x in fv if x[1] == fv[0][1]]) >= 1:
+            n, sz = r.choice(fv)
+            same = [x for x, s2 in fv if s2 == sz]
+            env[nm] = f"float{sz}"
+            return p + f"float{sz} {nm} = (({n} {r.choice('+-')} {r.choice(same)}) * {r.choice(['0.5', '1.5', '2.0'])});\n"
+        if k == 3 and iv:
+            n, sz = r.choice(iv)
+            env[nm] = f"int{sz}"
+            return p + f"int{sz} {nm} = ({n} * {r.randint(0, 3)});\n"
+        if k == 4 and mats:
+            m = r.choice(mats)
+            env[nm] = "float4x4"
+            rhs = f"({m} * {r.choice(mats)})" if r.random() < 0.5 else f"({m} * {r.choice(['0.5', '2.0'])})"
+            return p + f"float4x4 {nm} = {rhs};\n"
+        if k == 5 and mats:
+            m = r.choice(mats)
+            env[nm] = "float"
+            return p + f"float {nm} = {m}[{r.randrange(4)}][{r.randrange(4)}];\n"
+        if k == 6 and mats:
+            m = r.choice(mats)
+            if m in self.readonly:
+                return None
+            return p + f"{m}[{r.randrange(4)}][{r.randrange(4)}] = {self.expr('float', env, 1)};\n"
+        if k == 7:
+            env[nm] = "float"
+            return p + f"float {nm} = {self.expr('int', env, 1)};\n"  # implicit int -> float
+        if k == 8:
+            env[nm] = "float"
+            return p + f"float {nm} = ({self.expr('int', env, 1)} + {self.expr('float', env, 1)});\n"
+        return None
+
     def block(self, env, ind, depth, in_loop, n=None):
         return "".join(self.stmt(env, ind, depth, in_loop) for _ in range(n or self.r.randint(1, 3)))
 
@@ -210,7 +269,7 @@ class Gen:
             env = dict(genv)
             for _ in range(r.randint(0, 3)):
                 pn = self.fresh("p")
-                t = r.choice(SCALARS + ["float4", "int3"])
+                t = r.choice(SCALARS + ["float4", "int3", "float3", "float2", "float4x4"])
                 params.append(f"{t} {pn}")
                 env[pn] = t
             self.ret = r.choice(["int", "float", "uint", "void", "int", "float"])
